@@ -66,6 +66,19 @@ structure Page where
   cur : Bool             -- GHOST (no function below reads it): received since the server's tool table last changed
   deriving DecidableEq
 
+/-- A `ClientSession.ListTools` whose `tools/list` request has been answered by the server while the response has not yet
+reached the client (`ListTools` runs in a goroutine of the application; the response travels).  `gen` is what
+`methodCache.gen()` returned after the cache miss and before the request was sent: `putIfCurrent` stores the result only if
+no invalidation happened in between. -/
+structure Pending where
+  key : Bytes
+  gen : Nat
+  tools : Tools
+  next : Bytes
+  ttl : Int              -- the `ttlMs` the server put on the result
+  cur : Bool             -- GHOST (read by no function below): the server's table has not changed since it answered
+  deriving DecidableEq
+
 /-- The session: server table and settings, and the client's `toolsCache` — most recently received page first. -/
 structure World where
   newProto : Bool        -- the session runs 2026-07-28 (stateless server); otherwise a legacy version: no cache, no Mcp-* headers
@@ -73,6 +86,8 @@ structure World where
   ttl : Int              -- the `ttlMs` the server puts on `tools/list` results
   server : Tools
   cache : List Page
+  gen : Nat := 0                   -- `methodCache.generation`: counts invalidations
+  pend : Option Pending := none    -- the listing in flight, if any (the harness keeps at most one)
 
 /-- `cacheEntry.isValid` together with the `GetTTLMs() <= 0` test of `methodCache.get`. -/
 def pageFresh (now : Nat) (pg : Page) : Bool :=
@@ -85,6 +100,9 @@ inductive SeqOp where
   | adv                                  -- time passes (the clock is an input of every step)
   | notified                             -- the client handled notifications/tools/list_changed
   | list (cursor : Bytes)                -- client: ListTools
+  | listSend (cursor : Bytes)            -- client: ListTools begins in its own goroutine: cache, generation, request; the
+                                         -- server answers, the response is on its way
+  | listRecv                             -- the response of the listing in flight reaches the client: putIfCurrent, return
   | look (name : Bytes)                  -- client: lookupTool
   | call (name : Bytes) (a : Args)       -- client: CallTool
 
@@ -98,6 +116,7 @@ inductive CallOut where
 
 inductive SeqObs where
   | ok
+  | sent                                                 -- the tools/list request went out; its answer is in flight
   | listed (hit : Bool) (tools : Tools) (next : Bytes)   -- `hit`: served from the cache, the server was not asked
   | looked (defs : List (Option Props))                  -- the distinct answers of repeated `lookupTool` calls
   | called (hdrs : ParamHdrs) (out : CallOut)            -- the Mcp-Param-* headers of the POST, and how the call ended
@@ -137,6 +156,24 @@ def callModel (c : B64) (w : World) (name : Bytes) (a : Args) : ParamHdrs × Cal
 
 def staleAll (cache : List Page) : List Page := cache.map (fun pg => { pg with cur := false })
 
+def stalePend (p : Option Pending) : Option Pending := p.map (fun q => { q with cur := false })
+
+/-- `ListTools` up to the point where the request has been answered by the server (cache miss: `gen()` is read, the request
+sent; the answer is the server's page as of now, with the `ttlMs` of now). -/
+def sendList (w : World) (k : Bytes) : World × SeqObs :=
+  let f := serverPage w.server w.pageSize k
+  ({ w with pend := some { key := k, gen := w.gen, tools := f.1, next := f.2, ttl := w.ttl, cur := true } }, .sent)
+
+/-- The response in flight arrives: `putIfCurrent(gen, cursor, result)` — stored (replacing the page of that cursor, most
+recent) only if the cache has not been invalidated since the request was sent — and `ListTools` returns the result. -/
+def recvList (w : World) (now : Nat) (p : Pending) : World × SeqObs :=
+  (if w.newProto && p.gen == w.gen then
+     { w with pend := none,
+              cache := { key := p.key, tools := p.tools, next := p.next, ttl := p.ttl, recv := now, cur := p.cur } ::
+                w.cache.filter (fun pg => pg.key != p.key) }
+   else { w with pend := none },
+   .listed false p.tools p.next)
+
 /-- `putIfCurrent`: the page replaces the one cached under its cursor and is the most recent. -/
 def putPage (w : World) (now : Nat) (k : Bytes) : World × SeqObs :=
   let f := serverPage w.server w.pageSize k
@@ -146,11 +183,11 @@ def putPage (w : World) (now : Nat) (k : Bytes) : World × SeqObs :=
 
 /-- One step of the session at clock `now`. -/
 def stepW (c : B64) (w : World) (now : Nat) : SeqOp → World × SeqObs
-  | .setTool n p => ({ w with server := setTool n p w.server, cache := staleAll w.cache }, .ok)
-  | .delTool n => ({ w with server := removeTool n w.server, cache := staleAll w.cache }, .ok)
+  | .setTool n p => ({ w with server := setTool n p w.server, cache := staleAll w.cache, pend := stalePend w.pend }, .ok)
+  | .delTool n => ({ w with server := removeTool n w.server, cache := staleAll w.cache, pend := stalePend w.pend }, .ok)
   | .ttl v => ({ w with ttl := v }, .ok)
   | .adv => (w, .ok)
-  | .notified => ({ w with cache := [] }, .ok)
+  | .notified => ({ w with cache := [], gen := w.gen + 1 }, .ok)   -- `invalidate`: clear, and a new generation
   | .list k =>
     if !w.newProto then
       let f := serverPage w.server w.pageSize k
@@ -158,6 +195,18 @@ def stepW (c : B64) (w : World) (now : Nat) : SeqOp → World × SeqObs
     else match w.cache.find? (fun pg => pg.key == k) with
       | some pg => if pageFresh now pg then (w, .listed true pg.tools pg.next) else putPage w now k
       | none => putPage w now k
+  | .listSend k =>
+    (match w.pend with
+     | some _ => (w, .ok)            -- one listing in flight at a time (the harness does not start a second one)
+     | none =>
+       if !w.newProto then sendList w k
+       else match w.cache.find? (fun pg => pg.key == k) with
+         | some pg => if pageFresh now pg then (w, .listed true pg.tools pg.next) else sendList w k
+         | none => sendList w k)
+  | .listRecv =>
+    (match w.pend with
+     | none => (w, .ok)
+     | some p => recvList w now p)
   | .look n => (w, .looked [clientLookup w n])
   | .call n a =>
     let r := callModel c w n a
@@ -172,6 +221,11 @@ structure SeqMon where
   listed : List Bytes      -- names in tools/list results the SERVER gave the client since the table last changed and
                            -- since the last list_changed: for these the client has listed the current definition
   seen : Tools             -- every (name, definition) the client received since the last list_changed (diagnosis only)
+  pageSize : Nat := 0      -- the server's page size (configuration)
+  fresh : Bool := false    -- the client has handled a list_changed since the server's table last changed: its cache was
+                           -- emptied after the change, whatever it serves from it now was requested after that
+  pend : Option (Bool × Bool) := none   -- a listing is in flight; since its request was answered: (the table changed,
+                                        -- the client handled a list_changed)
 
 /-- The generated headers, compared as sets of pairs. -/
 def hdrsSame (h1 h2 : ParamHdrs) : Bool := h1.all h2.contains && h2.all h1.contains
@@ -179,17 +233,47 @@ def hdrsSame (h1 h2 : ParamHdrs) : Bool := h1.all h2.contains && h2.all h1.conta
 /-- `seen` holds this definition of the tool. -/
 def seenDef (seen : Tools) (name : Bytes) (p : Props) : Bool := seen.any (fun e => e.1 == name && e.2 == p)
 
+/-- `ListTools` answered from the client's cache (`hit`) after the client handled the list_changed that followed the
+table's last change: the cache was emptied after the change, so what it holds was requested after it — the tools served
+must be the server's. -/
+def staleHit (m : SeqMon) (k : Bytes) (hit : Bool) (tools : Tools) : Option Clause :=
+  if m.newProto && m.fresh && hit && tools != (serverPage m.server m.pageSize k).1 then some .seqStaleList else none
+
+/-- … and when they are, the client holds the current definition of every tool of that page although the server was not
+asked: the observer counts them as listed. -/
+def learnHit (m : SeqMon) (k : Bytes) (hit : Bool) (tools : Tools) : SeqMon :=
+  if m.newProto && m.fresh && hit && tools == (serverPage m.server m.pageSize k).1 then
+    { m with listed := toolNames tools ++ m.listed }
+  else m
+
 /-- One record: the operation and the IMPLEMENTATION's observation. -/
 def seqMonStep (c : B64) (m : SeqMon) : SeqOp → SeqObs → SeqMon × Option Clause
-  | .setTool n p, _ => ({ m with server := setTool n p m.server, listed := [] }, none)
-  | .delTool n, _ => ({ m with server := removeTool n m.server, listed := [] }, none)
+  | .setTool n p, _ =>
+    ({ m with server := setTool n p m.server, listed := [], fresh := false, pend := m.pend.map (fun x => (true, x.2)) }, none)
+  | .delTool n, _ =>
+    ({ m with server := removeTool n m.server, listed := [], fresh := false, pend := m.pend.map (fun x => (true, x.2)) }, none)
   | .ttl _, _ => (m, none)
   | .adv, _ => (m, none)
-  | .notified, _ => ({ m with listed := [], seen := [] }, none)
-  | .list _, .listed hit tools _ =>
+  | .notified, _ => ({ m with listed := [], seen := [], fresh := true, pend := m.pend.map (fun x => (x.1, true)) }, none)
+  | .list k, .listed hit tools _ =>
     if m.newProto && !hit then ({ m with listed := toolNames tools ++ m.listed, seen := tools ++ m.seen }, none)
-    else (m, none)
+    else (learnHit m k hit tools, staleHit m k hit tools)
   | .list _, _ => (m, none)
+  | .listSend k, .listed hit tools _ => (learnHit m k hit tools, staleHit m k hit tools)
+  | .listSend _, .sent => (match m.pend with | none => { m with pend := some (false, false) } | some _ => m, none)
+  | .listSend _, _ => (m, none)
+  | .listRecv, .listed _ tools _ =>
+    (match m.pend with
+     | none => (m, none)
+     | some (changed, noted) =>
+       if !m.newProto then ({ m with pend := none }, none)
+       -- requested before a list_changed the client has handled since: the client must not keep it (nothing is learnt)
+       else if noted then ({ m with pend := none }, none)
+       -- answered before the table's last change, no list_changed in between: the client is given an OLD page after
+       -- whatever it listed since — no demand until it lists again
+       else if changed then ({ m with pend := none, listed := [], seen := tools ++ m.seen }, none)
+       else ({ m with pend := none, listed := toolNames tools ++ m.listed, seen := tools ++ m.seen }, none))
+  | .listRecv, _ => (m, none)
   | .look n, .looked defs =>
     (m,
      if m.newProto && m.listed.contains n then
@@ -233,7 +317,8 @@ structure SeqCfg where
 def World.init (cfg : SeqCfg) : World :=
   { newProto := cfg.newProto, pageSize := cfg.pageSize, ttl := 0, server := [], cache := [] }
 
-def SeqMon.init (cfg : SeqCfg) : SeqMon := { newProto := cfg.newProto, server := [], listed := [], seen := [] }
+def SeqMon.init (cfg : SeqCfg) : SeqMon :=
+  { newProto := cfg.newProto, server := [], listed := [], seen := [], pageSize := cfg.pageSize }
 
 /-- Model and monitor in lockstep on a list of (clock, operation): the monitor is fed the MODEL's observations.  Returns
 the final states and the clauses raised. -/
